@@ -53,7 +53,7 @@ mut("c05_regen_no_data_check", "src/blob/core.rs", "            if let Some(data
 # ---- C03
 mut("c03_stale_gt", "src/blob/index/bptree/core.rs", "        if self.header.blob_size() != blob_size {", "        if self.header.blob_size() > blob_size {", ["C03"], "stale index (smaller recorded blob size) accepted")
 mut("c03_skip_written", "src/blob/index/bptree/core.rs", "        if !self.header.is_written() {\n            let param = ValidationErrorKind::IndexNotWritten;\n            return Err(", "        if false {\n            let param = ValidationErrorKind::IndexNotWritten;\n            return Err(", ["C03"])
-mut("c03_maxid_ignores_failed", "src/storage/core.rs", "                        max_blob_id = max_blob_id.max(Some(file_name.id()));", "                        let _ = file_name;", ["C03"], "max id ignores files that failed to open")
+mut("c03_maxid_ignores_failed", "src/storage/core.rs", "                        max_blob_id = max_blob_id.max(Some(file_name.id()));", "                        let _ = file_name;", ["C07", "C06", "C11"], "max id ignores files that failed to open")
 mut("c03_f5_revert", "src/blob/index/bptree/core.rs", "        if self.file.size() != expected_size {", "        if false && self.file.size() != expected_size {", ["C03"], "reverts fix F5")
 mut("c03_f6_revert", "src/storage/core.rs", "let max_blob_id = max_blob_id.max(Self::max_old_corrupted_blob_id(&self.inner.config).await);", "", ["C03", "C07"], "reverts fix F6")
 # ---- C06
